@@ -40,11 +40,22 @@ def frame_size(key):
     return int(np.prod(frame_shape(key)))
 
 
+# boundary flags of the multi images of the current case (the property's "input of step t+1 is the input of step t
+# with ..." includes the image metadata: a model may depend on it); chosen per case from the case's own content
+TORI = [(True, True), (False, False), (True, False)]
+CUR = {"torus": (True, True)}
+
+
 def to_mi(geom, items):
     """items: ordered list of (key, int ndarray (n, *frame_shape)) -> MultiImage (float32)"""
     import jax.numpy as jnp
 
-    return geom.MultiImage({k: jnp.asarray(np.asarray(v), dtype=jnp.float32) for k, v in items}, D)
+    return geom.MultiImage({k: jnp.asarray(np.asarray(v), dtype=jnp.float32) for k, v in items}, D, CUR["torus"])
+
+
+def meta_of(mi):
+    t = mi.is_torus
+    return (int(mi.D), tuple(bool(v) for v in (t if isinstance(t, (tuple, list)) else (t,) * D)))
 
 
 def from_mi(mi):
@@ -101,6 +112,9 @@ def adapt(fr, ks, kt):
     return fr.sum(axis=tuple(range(fr.ndim - (ks - kt), fr.ndim)))
 
 
+META = []  # (D, is_torus) of every input handed to the model of the current rollout
+
+
 def make_model(geom, spec, seen=None):
     """callable (x: MultiImage, aux) -> (MultiImage, aux'); records every input it is handed"""
 
@@ -114,6 +128,7 @@ def make_model(geom, spec, seen=None):
     def model(x, aux):
         if seen is not None:
             seen.append(from_mi(x))
+            META.append(meta_of(x))
         s = int(aux)
         keys = list(x.keys())
         outs = []
@@ -274,9 +289,14 @@ def check_rollout(ctx: Ctx, case, count=True):
     # --- implementation
     seen = []
     impl_err = None
+    CUR["torus"] = TORI[(past + n + len(x_items)) % 3]
+    ctx.hist("is_torus", str(CUR["torus"]))
+    del META[:]
+    out_meta = None
     try:
         out_mi, aux = ml.autoregressive_map(make_model(geom, spec, seen), to_mi(geom, x_items), s0, past, n, dict(consts))
         impl_out, impl_s = from_mi(out_mi), int(aux)
+        out_meta = meta_of(out_mi)
     except Exception as e:  # noqa: BLE001
         impl_err = f"{type(e).__name__}: {str(e)[:200]}"
     # --- Lean model
@@ -316,9 +336,14 @@ def check_rollout(ctx: Ctx, case, count=True):
     if len(seen) != n or not all(same_ordered(a, b) for a, b in zip(seen, orc_inputs)):
         bad.append("an input handed to the model is not the sliding-window update of the previous one "
                    "(window order, constants or type order)")
+    want_meta = (D, CUR["torus"])
+    if any(m != want_meta for m in META) or out_meta != want_meta:
+        bad.append(f"D / boundary flags are not carried through the rollout: inputs handed to the model have {META}, "
+                   f"the returned rollout {out_meta}, the initial input {want_meta}")
     if bad:
         ctx.violation("oracle", "; ".join(bad),
-                      dict(case, impl={"out": wire(impl_out), "state": impl_s, "inputs": [wire(i) for i in seen]},
+                      dict(case, is_torus=list(CUR["torus"]),
+                           impl={"out": wire(impl_out), "state": impl_s, "inputs": [wire(i) for i in seen]},
                            expected=expected))
         return
     if model_rej or not same_bykey(impl_out, model_out) or impl_s != model_s:
@@ -343,11 +368,15 @@ def check_step(ctx: Ctx, case, count=True):
                  sample={k: case[k] for k in ("past", "consts")} | {"types": [[k, len(b)] for k, b in case["input"]]}
                  if not case.get("malformed") else None)
     impl_err = None
+    CUR["torus"] = TORI[(past + len(x_items)) % 3]
+    step_meta = None
     try:
         args = [to_mi(geom, x_items), to_mi(geom, p_items), past, dict(consts)]
         if "future" in case:
             args.append(future)
-        impl = from_mi(ml.autoregressive_step(*args))
+        step_mi = ml.autoregressive_step(*args)
+        impl = from_mi(step_mi)
+        step_meta = meta_of(step_mi)
     except Exception as e:  # noqa: BLE001
         impl_err = f"{type(e).__name__}: {str(e)[:200]}"
     try:
@@ -375,6 +404,10 @@ def check_step(ctx: Ctx, case, count=True):
         what = ("type order of the new input differs from the input's" if [k for k, _ in impl] != [k for k, _ in orc]
                 else "new input is not `per channel window[1:] + [prediction]` with the constants in place")
         ctx.violation("oracle", "ml.autoregressive_step: " + what, dict(case, impl=wire(impl), expected=wire(orc)))
+        return
+    if step_meta != (D, CUR["torus"]):
+        ctx.violation("oracle", f"ml.autoregressive_step: the new input has (D, is_torus) = {step_meta}, the input had "
+                                f"{(D, CUR['torus'])}", dict(case, is_torus=list(CUR["torus"])))
         return
     if model_rej or not same_ordered(impl, model):
         ctx.violation("correspondence", "ml.autoregressive_step differs from Lean model autoregressiveStep",
@@ -522,7 +555,8 @@ def run(ctx: Ctx):
         "(aux_data) that enters the prediction, output keys optionally rotated by the state; arithmetic mod 65521) "
         "addressing its input by key or by position; 1..4 tensor types out of {(0,0),(1,0),(0,1),(1,1),(2,0)} each "
         "dyn+const / dyn-only / const-only, 1..3 channels, 0..2 constants, past 1..4, n 0..5, every insertion order of "
-        "the types, 2x2 frames (x 2^k tensor components); each input also goes through one "
+        "the types, 2x2 frames (x 2^k tensor components), boundary flags (True,True)/(False,False)/(True,False) in turn "
+        "(D and is_torus of every input handed to the model and of the results are compared with the initial input's); each input also goes through one "
         "direct ml.autoregressive_step with a random prediction (shuffled keys, sometimes extra types); plus a "
         "malformed stream compared as rejected/accepted. Non-trivial = past >= 2 and >= 2 types (and n >= 2 for "
         "rollouts); distinct = distinct full input."
